@@ -37,8 +37,14 @@ func c16hm(s *Sink, a, b [2]int, class string) {
 		map[string]any{"op": "hhmm", "a": a, "b": b, "before": bf, "after": af, "equals": eq}, class, a != b)
 }
 
+var c16locs = []*time.Location{time.UTC, time.FixedZone("+0545", 5*3600+45*60), time.FixedZone("-0930", -(9*3600 + 30*60)), time.FixedZone("+14", 14*3600)}
+var c16n int
+
 func c16dt(s *Sink, d, t int64, class string) {
-	bf := types.DateTime(time.UnixMilli(d)).Before(time.UnixMilli(t))
+	// the same two instants expressed in rotating Locations: the verdict is about instants, not wall clocks
+	c16n++
+	la, lb := c16locs[c16n%len(c16locs)], c16locs[(c16n/len(c16locs))%len(c16locs)]
+	bf := types.DateTime(time.UnixMilli(d).In(la)).Before(time.UnixMilli(t).In(lb))
 	zz := func(x int64) string {
 		if x < 0 {
 			return fmt.Sprintf("(%d)", x)
